@@ -202,6 +202,8 @@ VARIANTS += [
     V("c13-prefix-30-only", "C13", PAR, r"(?:CVSS:3\.\d/)?", r"(?:CVSS:3\.0/)?", rule="C13.complete.prefix"),
     V("c13-class-upper", "C13", PAR, "[A-Za-z:/]{26,}", "[A-Z:/]{26,}", rule="C13.complete.alphabet"),
     V("c13-capturing", "C13", PAR, r"(?:CVSS:3\.\d/)?", r"(CVSS:3\.\d/)?", rule="C13.sound.groups"),
+    V("c13-fastpath-au", "C13", PAR, "    # Looks for substrings which resemble CVSS2 or CVSS3 vectors.", '    if "CVSS:3." not in text and "/Au:" not in text:\n        return []\n    # Looks for substrings which resemble CVSS2 or CVSS3 vectors.', rule="C13.sem.result"),
+    V("c13-fastpath-colon-N", "C13", PAR, "    # Looks for substrings which resemble CVSS2 or CVSS3 vectors.", '    if ":" not in text or "/" not in text:\n        return []\n    # Looks for substrings which resemble CVSS2 or CVSS3 vectors.', "silent"),
     V("c13-except-narrow", "C13", PAR, "except (CVSSError, KeyError):", "except KeyError:", rule="C13.sem.total"),
     V("c13-no-dedup", "C13", PAR, "            if cvss not in cvsss:\n                cvsss.append(cvss)", "            cvsss.append(cvss)", rule="C13.sem.result"),
     # a part of the match is still a substring of the text: the property holds (the idiom rule that demanded the untransformed match was stricter)
